@@ -133,6 +133,43 @@ def run(ctx: Ctx) -> RuleResult:
     res.ob('%s %s' % (sm.loc(), sm.qual), 'chunks are tried in order; the first match gives (text, terminal name)', ok)
     if not ok:
         res.finding(sm, sm.node, 'Scanner.match does not return the first chunk\'s match as (group(0), lastgroup)', construct='match')
+    # ---- the features of the key are computed from the regexp that is actually compiled ------------------------
+    pat = repo.cls('lark.lexer:Pattern')
+    pfam = {k.qual for k in [pat] + pat.all_subclasses()}
+    n_uses = 0
+    for f in repo.functions.values():
+        if f.module.name not in ('lark.lexer', 'lark.parser_frontends'):
+            continue
+        for n in f.body_nodes():
+            if not isinstance(n, ast.Call):
+                continue
+            fn = norm(n.func)
+            if not (fn == 'get_regexp_width' or fn.endswith('.compile') or fn == '_get_match'):
+                continue
+            regex_args = n.args[1:2] if fn == '_get_match' else n.args[0:1]
+            for a in regex_args:
+                srcs = [a]
+                if isinstance(a, ast.Name):
+                    srcs = [x.value for x in f.body_nodes() if isinstance(x, ast.Assign)
+                            and any(isinstance(t, ast.Name) and t.id == a.id for t in x.targets)] or [a]
+                for e in srcs:
+                    for x in ast.walk(e):
+                        if isinstance(x, ast.Call) and isinstance(x.func, ast.Attribute) and x.func.attr == 'to_regexp':
+                            n_uses += 1
+                            res.ob(f_loc(f, n), '%s works on to_regexp() (pattern text with its flags)' % fn, True)
+                        if isinstance(x, ast.Attribute) and x.attr in ('value', 'raw') and isinstance(x.ctx, ast.Load):
+                            owner = f.owner_class
+                            recv_is_pattern = (isinstance(x.value, ast.Name) and x.value.id == f.self_name() and owner is not None
+                                               and owner.qual in pfam) or norm(x.value).endswith('.pattern')
+                            if recv_is_pattern and not any(isinstance(p_, ast.Call) and norm(p_.func) == 're.escape'
+                                                           for p_ in ancestors(x)):
+                                res.ob(f_loc(f, n), '%s works on to_regexp(), not on the bare pattern text' % fn, False)
+                                res.finding(f, enclosing_stmt(n), '%s is given the pattern\'s bare %s instead of to_regexp(): the flags are '
+                                            'dropped, so width/validity is computed for a different regexp than the one the lexer compiles '
+                                            '(the documented order uses the width of the real regexp)' % (fn, x.attr),
+                                            construct='bare-pattern-text:' + norm(n))
+    if n_uses < 4:
+        raise AnalysisError('R-LEX-PRECEDENCE: found %d consumers of Pattern.to_regexp(), expected at least 4' % n_uses)
     # ---- keyword exception --------------------------------------------------------------------------------
     body = cuf
     prio = [n for n in cuf.body_nodes() if isinstance(n, ast.If) and isinstance(n.test, ast.Compare) and isinstance(n.test.ops[0], ast.NotEq)
